@@ -4,15 +4,24 @@ from apischema.conversions.conversions import DefaultConversion
 from apischema.types import AnyType
 
 
+class _AllRefs:
+    """Every named type is a reference: only the key type of the mapping matters, its
+    values (which can be recursive or unsupported) have not to be visited"""
+
+    def __contains__(self, ref) -> bool:
+        return isinstance(ref, str)
+
+
 def infer_pattern(tp: AnyType, default_conversion: DefaultConversion) -> Pattern:
     from apischema.json_schema.schema import DeserializationSchemaBuilder
+    from apischema.visitor import Unsupported
 
     try:
         builder = DeserializationSchemaBuilder(
-            False, default_conversion, False, lambda r: r, {}
+            False, default_conversion, True, lambda r: r, _AllRefs()  # type: ignore
         )
         prop_schema = builder.visit(tp)
-    except RecursionError:
+    except (RecursionError, Unsupported):
         pass
     else:
         if (
